@@ -3,6 +3,8 @@ package otto
 import (
 	"encoding/json"
 	"reflect"
+	"unicode"
+	"unicode/utf8"
 )
 
 // FIXME Make a note about not being able to modify a struct unless it was
@@ -117,7 +119,9 @@ func validGoStructName(name string) bool {
 	if name == "" {
 		return false
 	}
-	return 'A' <= name[0] && name[0] <= 'Z' // TODO What about Unicode?
+	// Go exports every name that starts with a Unicode upper-case letter, not only 'A'..'Z'.
+	first, _ := utf8.DecodeRuneInString(name)
+	return unicode.IsUpper(first)
 }
 
 func goStructEnumerate(obj *object, all bool, each func(string) bool) {
